@@ -38,6 +38,7 @@ type CallEnv struct {
 	SeenStates     map[string]*GState   // graph path -> state object last seen by a callback of that graph
 	SeenSeq        map[string]int       // graph path -> logical time of that observation
 	SeenAll        map[string][]*GState // graph path -> every distinct state object observed there
+	SeenCall       map[*GState]int      // state object -> 1 + index of the call (WithCall) whose bodies touched it; 0 = unknown
 	StateMu        sync.Mutex           // serialises harness-side accesses to state objects
 	seenSeq        int
 	Hook           func(ctx context.Context, n *NodeSpec, tag string, in string) // optional extra instrumentation
@@ -87,6 +88,18 @@ func NewEnv(tag string) *CallEnv {
 // With attaches the environment to a context.
 func (e *CallEnv) With(ctx context.Context) context.Context {
 	return context.WithValue(ctx, envKey{}, e)
+}
+
+type callKey struct{}
+
+// WithCall marks a context with the index of the call of a history it belongs to.
+func WithCall(ctx context.Context, idx int) context.Context {
+	return context.WithValue(ctx, callKey{}, idx+1)
+}
+
+func callOf(ctx context.Context) int {
+	i, _ := ctx.Value(callKey{}).(int)
+	return i
 }
 
 // EnvOf extracts the environment.
@@ -1219,7 +1232,13 @@ func (e *CallEnv) OwnedStates(sp *Spec) map[string]*GState {
 		}
 		e.StateMu.Lock()
 		for _, st := range all {
-			if st != nil && st.Gen == out[o].Gen && len(st.Log) > len(out[o].Log) {
+			if st == nil || st.Gen != out[o].Gen {
+				continue
+			}
+			// the object restored by the latest call is the current one (bodies of a call only ever touch that
+			// call's object, so the call index carried by their context identifies it); where no call index is
+			// known the longest log decides
+			if cs, co := e.SeenCall[st], e.SeenCall[out[o]]; cs > co || (cs == co && len(st.Log) > len(out[o].Log)) {
 				out[o] = st
 			}
 		}
